@@ -38,31 +38,34 @@ type AttrSpec struct {
 }
 
 type AsrtSpec struct {
-	ID           string     `json:"id"`
-	IssueMs      int64      `json:"issue_ms"`
-	IssueText    string     `json:"issue_text,omitempty"` // non-empty: IssueInstant is written as exactly this text (instants a Duration from t0 cannot express)
-	Issuer       string     `json:"issuer"`
-	IssuerFormat string     `json:"issuer_format,omitempty"` // "": nameid-format:entity
-	IssuerNQ     string     `json:"issuer_name_qualifier,omitempty"`
-	Pretty       bool       `json:"pretty_printed,omitempty"` // the IdP pretty-prints (line breaks and indentation between child elements) before it signs
-	NoSubject    bool       `json:"no_subject,omitempty"`
-	NoNameID     bool       `json:"no_nameid,omitempty"`
-	NoConditions bool       `json:"no_conditions,omitempty"`
-	NameID       string     `json:"nameid"`
-	Confs        []ConfSpec `json:"confs"`
-	NotBefore    *int64     `json:"nb_ms"`
-	NotOnOrAfter *int64     `json:"noa_ms"`
-	NOAText      string     `json:"noa_text,omitempty"` // non-empty: Conditions/@NotOnOrAfter is written as exactly this text (e.g. the year-1 instant)
-	NBText       string     `json:"nb_text,omitempty"`  // non-empty: Conditions/@NotBefore is written as exactly this text
-	Audiences    []string   `json:"audiences"`          // one AudienceRestriction each; nil: none
-	Attrs        []AttrSpec `json:"attrs,omitempty"`
-	SessionIndex string     `json:"session_index,omitempty"`
-	SessionNOA   *int64     `json:"session_noa_ms,omitempty"` // AuthnStatement SessionNotOnOrAfter (nil: absent)
-	NoAuthn      bool       `json:"no_authn,omitempty"`
-	Sign         bool       `json:"sign"`
-	SignKey      int        `json:"sign_key,omitempty"` // index into rsaKeys
-	Encrypt      bool       `json:"encrypt,omitempty"`
-	EncryptTo    int        `json:"encrypt_to,omitempty"` // index into rsaKeys (the SP's key)
+	ID           string `json:"id"`
+	IssueMs      int64  `json:"issue_ms"`
+	IssueText    string `json:"issue_text,omitempty"` // non-empty: IssueInstant is written as exactly this text (instants a Duration from t0 cannot express)
+	Issuer       string `json:"issuer"`
+	IssuerFormat string `json:"issuer_format,omitempty"` // "": nameid-format:entity
+	IssuerNQ     string `json:"issuer_name_qualifier,omitempty"`
+	Pretty       bool   `json:"pretty_printed,omitempty"` // the IdP pretty-prints (line breaks and indentation between child elements) before it signs
+	// EmptyRestrictions: this many AudienceRestriction elements without any Audience child are written into the Conditions (a
+	// restriction that names nobody is satisfied by nobody)
+	EmptyRestrictions int        `json:"audience_restrictions_without_audience,omitempty"`
+	NoSubject         bool       `json:"no_subject,omitempty"`
+	NoNameID          bool       `json:"no_nameid,omitempty"`
+	NoConditions      bool       `json:"no_conditions,omitempty"`
+	NameID            string     `json:"nameid"`
+	Confs             []ConfSpec `json:"confs"`
+	NotBefore         *int64     `json:"nb_ms"`
+	NotOnOrAfter      *int64     `json:"noa_ms"`
+	NOAText           string     `json:"noa_text,omitempty"` // non-empty: Conditions/@NotOnOrAfter is written as exactly this text (e.g. the year-1 instant)
+	NBText            string     `json:"nb_text,omitempty"`  // non-empty: Conditions/@NotBefore is written as exactly this text
+	Audiences         []string   `json:"audiences"`          // one AudienceRestriction each; nil: none
+	Attrs             []AttrSpec `json:"attrs,omitempty"`
+	SessionIndex      string     `json:"session_index,omitempty"`
+	SessionNOA        *int64     `json:"session_noa_ms,omitempty"` // AuthnStatement SessionNotOnOrAfter (nil: absent)
+	NoAuthn           bool       `json:"no_authn,omitempty"`
+	Sign              bool       `json:"sign"`
+	SignKey           int        `json:"sign_key,omitempty"` // index into rsaKeys
+	Encrypt           bool       `json:"encrypt,omitempty"`
+	EncryptTo         int        `json:"encrypt_to,omitempty"` // index into rsaKeys (the SP's key)
 }
 
 type RespSpec struct {
@@ -314,6 +317,24 @@ func buildAssertionEl(a *AsrtSpec, t0 time.Time, form int, method string) *etree
 	if a.NBText != "" {
 		if c := el.FindElement("./Conditions"); c != nil {
 			c.CreateAttr("NotBefore", a.NBText)
+		}
+	}
+	if a.EmptyRestrictions > 0 {
+		c := el.FindElement("./Conditions")
+		if c == nil {
+			c = etree.NewElement("saml:Conditions")
+			if sub := el.FindElement("./Subject"); sub != nil {
+				el.InsertChildAt(sub.Index()+1, c)
+			} else {
+				el.AddChild(c)
+			}
+		}
+		for i := 0; i < a.EmptyRestrictions; i++ {
+			r := etree.NewElement("saml:AudienceRestriction")
+			if i%2 == 1 {
+				r.SetText("\n") // <AudienceRestriction>\n</AudienceRestriction>
+			}
+			c.InsertChildAt(0, r)
 		}
 	}
 	if a.Pretty {
